@@ -27,3 +27,117 @@
         std::mem::forget(r);
         std::mem::forget(p);
     }
+
+// @common
+    use crate::verif_io::FixW;
+
+    /// Header recorder (replaces `Header::to_writer` in the archive-writer harnesses: the deku/bitvec header codec
+    /// cannot be symbolically executed even on constants): records the header FIELDS the writer assembled and
+    /// moves 127 placeholder bytes with one write_all, like the real function. The header's byte layout is not
+    /// checked by these harnesses. In the native replay the real codec runs and the fields are read back from the
+    /// real 127 bytes.
+    static mut CAP_HDR: [u64; 11] = [0; 11];
+    static mut CAP_MISC: [u8; 8] = [0; 8];
+    static mut CAP_SET: u32 = 0;
+    fn capture(h: &Header) {
+        unsafe {
+            CAP_HDR = [h.root_directory_offset, h.root_directory_length, h.json_metadata_offset, h.json_metadata_length,
+                h.leaf_directories_offset, h.leaf_directories_length, h.tile_data_offset, h.tile_data_length,
+                h.num_addressed_tiles, h.num_tile_entries, h.num_tile_content];
+            CAP_MISC = [h.spec_version, h.clustered as u8, h.internal_compression as u8, h.tile_compression as u8,
+                h.tile_type as u8, h.min_zoom, h.max_zoom, h.center_zoom];
+            CAP_SET += 1;
+        }
+    }
+    fn hdr_to_writer_stub(h: &Header, output: &mut impl Write) -> std::io::Result<()> {
+        capture(h);
+        let buf = [0xAAu8; 127];
+        output.write_all(&buf)?;
+        Ok(())
+    }
+
+// @h id=H2.1-P$p prop=C02,C17,C18 rep="p:0-3" quick="0-3" cap=900 mem=16 unwind=6 uw="FixW=130;h2_1_writer=62" stubs="Header::to_writer -> field recorder + 127 placeholder bytes in one write_all (header byte layout not checked); internal compression None; metadata = empty object" bounds="empty archive (T = 0 tiles), start position P = {0,1,7,60}[$p] into a stream pre-filled with 0x55; tile type, tile compression and the three zoom bytes symbolic"
+    /// archive writer on an empty archive: header fields describe contiguous in-file sections relative to P, counters zero, bytes before P untouched, stream left at the archive's end, and the header transfer is the last write - nothing earlier touches [P, P+127)
+    #[kani::proof]
+    #[kani::stub(crate::header::Header::to_writer, hdr_to_writer_stub)]
+    fn h2_1_writer_empty_p$p() {
+        const PS: [u64; 4] = [0, 1, 7, 60];
+        let pstart: u64 = PS[$p];
+        let tt: u8 = kani::any();
+        let tc: u8 = kani::any();
+        let z0: u8 = kani::any();
+        let z1: u8 = kani::any();
+        let z2: u8 = kani::any();
+        let mut p = PMTiles::new(
+            match tt % 5 { 0 => TileType::Unknown, 1 => TileType::Mvt, 2 => TileType::Png, 3 => TileType::Jpeg, _ => TileType::WebP },
+            match tc % 5 { 0 => Compression::Unknown, 1 => Compression::None, 2 => Compression::GZip, 3 => Compression::Brotli, _ => Compression::ZStd },
+        );
+        p.internal_compression = Compression::None;
+        p.min_zoom = z0;
+        p.max_zoom = z1;
+        p.center_zoom = z2;
+        let want_tt = p.tile_type as u8;
+        let want_tc = p.tile_compression as u8;
+        let mut arr = [0x55u8; 200];
+        let mut out = FixW::new(&mut arr, pstart);
+        let r = p.to_writer(&mut out);
+        assert!(r.is_ok());
+        std::mem::forget(r);
+        let (pos, end, lw_pos, lw_len, min_prev, writes) = (out.pos, out.end, out.last_write_pos, out.last_write_len, out.min_pos_prev, out.writes);
+        #[cfg(verif_replay)]
+        {
+            let h = Header::from_bytes(&arr[pstart as usize..pstart as usize + 127]).unwrap();
+            capture(&h);
+        }
+        let h = unsafe { CAP_HDR };
+        let misc = unsafe { CAP_MISC };
+        assert!(unsafe { CAP_SET } == 1);
+        // C02/C18: sections relative to P, contiguous, inside the file
+        assert!(h[0] == 127 && h[1] == 1);               // root: one byte (entry count 0)
+        assert!(h[2] == 128 && h[3] == 2);               // metadata: "{}"
+        assert!(h[4] == 130 && h[5] == 0);               // no leaf section
+        assert!(h[6] == 130 && h[7] == 0);               // no tile data
+        assert!(h[8] == 0 && h[9] == 0 && h[10] == 0);   // counters
+        assert!(misc[0] == 3 && misc[1] == 1);           // version 3, clustered
+        assert!(misc[2] == Compression::None as u8 && misc[3] == want_tc && misc[4] == want_tt);
+        assert!(misc[5] == z0 && misc[6] == z1 && misc[7] == z2);
+        let ps = pstart as usize;
+        assert!(arr[ps + 127] == 0);
+        assert!(arr[ps + 128] == b'{' && arr[ps + 129] == b'}');
+        // C18: bytes before P untouched, stream left at the end of the archive
+        let mut i = 0;
+        while i < 60 {
+            if i < ps { assert!(arr[i] == 0x55); }
+            i += 1;
+        }
+        assert!(pos == pstart + 130 && end == pstart + 130);
+        assert!(arr[ps + 130] == 0x55);
+        // C17: the header transfer is the last write, one 127-byte write at P; no earlier write went below P+127
+        assert!(lw_pos == pstart && lw_len == 127);
+        assert!(writes >= 3 && min_prev >= pstart + 127);
+        kani::cover!(tt % 5 == 2 && tc % 5 == 4);
+        kani::cover!(z1 == 255);
+    }
+
+// @h id=H15.w prop=C15 tier=quick cap=900 mem=16 unwind=6 uw="FixW=130" stubs="Header::to_writer -> field recorder (as H2.1)" bounds="empty archive, every fail-stop point k (operation k and all later stream operations fail; k any u32, the fault-free run has fewer than 16 operations)"
+    /// if the stream starts failing at any operation the archive writer returns an error: never a panic, never success for an incomplete transfer
+    #[kani::proof]
+    #[kani::stub(crate::header::Header::to_writer, hdr_to_writer_stub)]
+    fn h15_w_writer_faults() {
+        let k: u32 = kani::any();
+        let mut p = PMTiles::new(TileType::Png, Compression::None);
+        p.internal_compression = Compression::None;
+        let mut arr = [0x55u8; 200];
+        let mut out = FixW::new(&mut arr, 0);
+        out.fail_from = k;
+        let r = p.to_writer(&mut out);
+        let ok = r.is_ok();
+        std::mem::forget(r);
+        assert!(ok == !out.failed);
+        assert!(out.ops <= 16);
+        if ok { assert!(k >= out.ops); }
+        kani::cover!(ok);
+        kani::cover!(!ok && k == 0);
+        kani::cover!(!ok && k + 1 == out.ops);
+        kani::cover!(!ok && k == 3);
+    }
